@@ -4,7 +4,7 @@ Simulated dimension: seeded histories of scheduler registrations / removals / re
 injected rejections (duplicate id, unknown id), interleaved with timesteps."""
 from ECAgent.Collectors import Collector
 
-from .common import EqRec, Model, Rec, RefSched, SystemNotFoundError, gen_prio
+from .common import Model, Rec, RefSched, SystemNotFoundError, gen_flavour, gen_prio, rec_class
 
 PROPERTY = "C01"
 QUICK_RUNS = 24000
@@ -19,7 +19,7 @@ COMPONENTS = {"real": ["ECAgent.Core.SystemManager.add_system/remove_system/exec
                        "ECAgent.Collectors.Collector (default priority)"],
               "stub": ["System.execute / Collector.collect bodies are harness recorders"]}
 PROBES = ["tie_of_3", "readd_after_remove", "insert_head", "insert_middle", "insert_tail",
-          "negative_next_to_collector", "dup_rejected", "unknown_rejected", "extreme_priority", "same_object_reregistered", "systems_with_value_equality"]
+          "negative_next_to_collector", "dup_rejected", "unknown_rejected", "extreme_priority", "same_object_reregistered", "systems_with_value_equality", "falsy_systems"]
 TECHNIQUE = "deterministic simulation: seeded registration/removal histories with injected rejections vs a sorted-list reference, per-timestep execution log oracle"
 LEVEL_TEXT = ("Seeded search over registration histories; after every timestep the execution order recorded from the real "
               "scheduler must equal the reference (descending priority, registration order among equals) and after every "
@@ -66,7 +66,7 @@ def generate(rng, tier):
             ops.append({"op": "step", "n": rng.choice([1, 1, 1, 2, 3])})
         else:
             ops.append({"op": "lookup", "k": rng.randrange(n)})
-    return {"pool": pool, "ops": ops, "value_eq": rng.random() < 0.15}
+    return dict({"pool": pool, "ops": ops}, **gen_flavour(rng))
 
 
 class World:
@@ -79,9 +79,7 @@ class World:
 
 
 def execute(sc, ctx):
-    Rec_ = EqRec if sc.get("value_eq") else Rec       # noqa: N806
-    if sc.get("value_eq"):
-        ctx.probe("systems_with_value_equality")
+    Rec_ = rec_class(sc, ctx)       # noqa: N806
     w = World(ctx)
     model = Model(seed=20260927)
     sm = model.systems
